@@ -50,7 +50,13 @@ func (vc *VC) sqrtTerm(x string, reach string) string {
 	vc.decl("sqrt_", "(declare-fun sqrt_ (Real) Real)")
 	vc.assumedStd["math.Sqrt: x>=0 => r>=0 && r*r==x (real arithmetic)"] = true
 	r := fmt.Sprintf("(sqrt_ %s)", x)
-	vc.assume(reach, fmt.Sprintf("(=> (>= %s 0.0) (and (>= %s 0.0) (= (* %s %s) %s)))", x, r, r, r, x))
+	fact := fmt.Sprintf("(=> (>= %s 0.0) (and (>= %s 0.0) (= (* %s %s) %s)))", x, r, r, r, x)
+	if len(vc.capStack) == 0 {
+		// droppable: a racing solver instance may treat sqrt as an uninterpreted function
+		vc.assumeAxiomInstance(implies(reach, fact))
+	} else {
+		vc.assume(reach, fact)
+	}
 	return r
 }
 
@@ -98,6 +104,11 @@ func init() {
 			fr.vc.decl("inf_order", "(assert (< negInf posInf))")
 			fr.vc.assumedStd["math.Inf(+-1): two constants; every finite value lies strictly between them (assumed where a contract says finite)"] = true
 			return []T{{fmt.Sprintf("(ite (>= %s 0) posInf negInf)", args[0].S), "Real", types.Typ[types.Float64]}}
+		},
+		"math.NaN": func(fr *frame, c *ssa.CallCommon, args []T, st *state, pos string) []T {
+			fr.vc.decl("math.NaNval", "(declare-const math.NaNval Real)")
+			fr.vc.assumedStd["math.NaN(): an unspecified constant (NaN does not exist over the reals)"] = true
+			return []T{{"math.NaNval", "Real", types.Typ[types.Float64]}}
 		},
 		"math.Sin":  uninterp1("math.Sin"),
 		"math.Cos":  uninterp1("math.Cos"),
@@ -261,7 +272,11 @@ func (fr *frame) doMakeSlice(x *ssa.MakeSlice, st *state) {
 	r := vc.alloc(st)
 	h := vc.heapArr(es)
 	z := vc.zero(et)
-	vc.heapSet(st, h, fmt.Sprintf("(store %s %s ((as const (Array Int %s)) %s))", vc.heapGet(st, h), r, es, z.S))
+	_, newH := vc.heapStoreRef(st, h, r, fmt.Sprintf("((as const (Array Int %s)) %s)", es, z.S))
+	if len(vc.capStack) == 0 {
+		an := vc.at(es, newH, "s", "j")
+		vc.emit(fmt.Sprintf("(assert (forall ((s Slice) (j Int)) (! (=> (= (s_arr s) %s) (= %s %s)) :pattern (%s))))", r, an, z.S, an))
+	}
 	fr.setVal(x, T{fmt.Sprintf("(mk_slice %s 0 %s %s)", r, ln.S, cp.S), "Slice", x.Type()})
 }
 
@@ -298,7 +313,7 @@ func (fr *frame) doSlice(x *ssa.Slice, st *state) {
 			cur := fr.load(base, st)
 			r := vc.alloc(st)
 			h := vc.heapArr(vc.sortOf(arr.Elem()))
-			vc.heapSet(st, h, fmt.Sprintf("(store %s %s %s)", vc.heapGet(st, h), r, cur.S))
+			vc.heapStoreRef(st, h, r, cur.S)
 			base = &addr{kind: aArrPtr, ref: r, typ: u.Elem()}
 		}
 		n := fmt.Sprintf("%d", arr.Len())
@@ -338,8 +353,8 @@ func (fr *frame) doAppend(c *ssa.CallCommon, st *state, pos string) T {
 	}
 	es = vc.sortOf(st0.Elem())
 	h := vc.heapArr(es)
-	sN := vc.define("app_s", "Slice", s.S)
-	eN := vc.define("app_e", "Slice", e.S)
+	sN := vc.nameConst("app_s", "Slice", s.S)
+	eN := vc.nameConst("app_e", "Slice", e.S)
 	n := fmt.Sprintf("(s_len %s)", eN)
 	newLen := vc.define("app_len", "Int", fmt.Sprintf("(+ (s_len %s) %s)", sN, n))
 	inPlace := vc.define("app_inplace", "Bool", fmt.Sprintf("(<= %s (s_cap %s))", newLen, sN))
@@ -386,6 +401,20 @@ func (fr *frame) doAppend(c *ssa.CallCommon, st *state, pos string) T {
 	}
 	newHeap := fmt.Sprintf("(ite %s (store %s (s_arr %s) %s) (store %s %s %s))", inPlace, cur, sN, ipArr, cur, fresh, frArr)
 	vc.heapSet(st, h, newHeap)
+	res0 := fmt.Sprintf("(ite %s (mk_slice (s_arr %s) (s_off %s) %s (s_cap %s)) (mk_slice %s 0 %s %s))", inPlace, sN, sN, newLen, sN, fresh, newLen, newCap)
+	resN := vc.nameConst("app_r", "Slice", res0)
+	if len(vc.capStack) == 0 {
+		newH := st.heap[h]
+		vc.atOthersUnchanged(h, newH, cur, fmt.Sprintf("(and (not (= (s_arr s) %s)) (not (and %s (= (s_arr s) (s_arr %s)))))", fresh, inPlace, sN))
+		// through the result: old elements then the appended ones
+		an := vc.at(es, newH, resN, "j")
+		vc.emit(fmt.Sprintf("(assert (forall ((j Int)) (! (=> (and (<= 0 j) (< j %s)) (= %s (ite (< j (s_len %s)) %s %s))) :pattern (%s))))",
+			newLen, an, sN, vc.at(es, cur, sN, "j"), vc.at(es, cur, eN, fmt.Sprintf("(- j (s_len %s))", sN)), an))
+		// in place: the old slice still sees its own elements
+		ao := vc.at(es, newH, sN, "j")
+		vc.emit(fmt.Sprintf("(assert (forall ((j Int)) (! (=> (and (<= 0 j) (< j (s_len %s))) (= %s %s)) :pattern (%s))))", sN, ao, vc.at(es, cur, sN, "j"), ao))
+	}
+	return T{resN, "Slice", c.Args[0].Type()}
 	res := fmt.Sprintf("(ite %s (mk_slice (s_arr %s) (s_off %s) %s (s_cap %s)) (mk_slice %s 0 %s %s))", inPlace, sN, sN, newLen, sN, fresh, newLen, newCap)
 	return T{vc.define("app_r", "Slice", res), "Slice", c.Args[0].Type()}
 }
@@ -419,8 +448,8 @@ func (fr *frame) doCopy(c *ssa.CallCommon, st *state, pos string) T {
 	et := unalias(c.Args[0].Type()).Underlying().(*types.Slice).Elem()
 	es := vc.sortOf(et)
 	h := vc.heapArr(es)
-	dN := vc.define("cp_d", "Slice", d.S)
-	sN := vc.define("cp_s", "Slice", s.S)
+	dN := vc.nameConst("cp_d", "Slice", d.S)
+	sN := vc.nameConst("cp_s", "Slice", s.S)
 	n := vc.define("cp_n", "Int", fmt.Sprintf("(imin (s_len %s) (s_len %s))", dN, sN))
 	if !fr.inline && !fr.modAll {
 		alts := []string{fmt.Sprintf("(= %s 0)", n), fmt.Sprintf("(>= (s_arr %s) %s)", dN, fr.next0)}
@@ -436,7 +465,12 @@ func (fr *frame) doCopy(c *ssa.CallCommon, st *state, pos string) T {
 	sArr := fmt.Sprintf("(select %s (s_arr %s))", cur, sN)
 	vc.assume("true", fmt.Sprintf("(forall ((j Int)) (! (= (select %s j) (ite (and (<= (s_off %s) j) (< j (+ (s_off %s) %s))) (select %s (+ (s_off %s) (- j (s_off %s)))) (select %s j))) :pattern ((select %s j))))",
 		na, dN, dN, n, sArr, sN, dN, dArr, na))
-	vc.heapSet(st, h, fmt.Sprintf("(store %s (s_arr %s) %s)", cur, dN, na))
+	oldH, newH := vc.heapStoreRef(st, h, fmt.Sprintf("(s_arr %s)", dN), na)
+	if len(vc.capStack) == 0 {
+		// through the destination slice: first n elements are the source's, the rest unchanged
+		an := vc.at(es, newH, dN, "j")
+		vc.emit(fmt.Sprintf("(assert (forall ((j Int)) (! (= %s (ite (and (<= 0 j) (< j %s)) %s %s)) :pattern (%s))))", an, n, vc.at(es, oldH, sN, "j"), vc.at(es, oldH, dN, "j"), an))
+	}
 	return T{n, "Int", types.Typ[types.Int]}
 }
 
